@@ -167,6 +167,8 @@ func argFields(ev map[string]any, act Act, renewal func() map[string]int64) {
 		ev["a"] = act.A
 	case "Mine":
 		ev["n"] = act.N
+	case "PartialWrite":
+		ev["a"], ev["units"], ev["part"] = act.A, act.Units, act.Part
 	case "BeginRenew":
 		ev["kind"], ev["pf"], ev["cf"], ev["rf"], ev["na"], ev["nc"] = act.Kind, act.Pf, act.Cf, act.Rf, act.NA, act.NC
 	}
